@@ -203,7 +203,7 @@ func c20Mistyped(c *mon.Ctx, class string, tok []byte) {
 }
 
 func runC20(c *mon.Ctx) {
-	c.Rule("envelopes assembled by the harness's own CBOR encoder around real signed tokens (7 algorithms, both profiles + extension): every tag 0..30 / 61 / 96 / 97 / 98 / none / nested / non-minimal; array lengths 0..6; each of the four elements replaced by every CBOR kind (uint, nint, bstr, empty bstr, tstr, array, map, tag, false, true, null, undefined, float); payload := a claims map of either profile in which one known claim (or a component / component field) carries a value of an undecodable type (27 kinds, incl. the EAT profile key 265 of a non-text type on tokens of either profile and component lists holding null / undefined entries); every tag number 0..300; tags 601 / 602 / 603 / 61 / 55799 / 1000 / 65535 / 65536 around the 4-array, around the tagged token and around the bare claims-set; the bare claims-set; payload content := int / tstr / array / null / undefined / true / float / bstr(map) / bstr(bstr(map)) / tagged map / map+trailing / empty / truncated map / indefinite map; null / undefined behind tags of every argument width (8-byte tag numbers with leading octets 00, 80, a0, a1, b8, bf); the non-map payloads again under protected headers carrying CWT claims (label 15) that name a registered profile, a content type, a key id; 1-8 trailing bytes; COSE_Sign, COSE_Mac0, COSE_Mac, COSE_Encrypt0 layouts under their own tag and under tag 18; the four TF-M vectors (both *_mac0.bin must be rejected, both *_sign1.bin accepted); random AST mutations. tag numbers whose low-order bytes are 18 (0x112, 0x1212, 2^16+18, 2^32+18 ...) in every argument width. Every envelope is judged by DecodeEvidenceFromCOSE, by UnmarshalCOSE on a fresh Evidence, on an Evidence with claims already attached, and on an Evidence that decoded a good token before - all four must agree. Oracle: a nil error from DecodeEvidenceFromCOSE / Evidence.UnmarshalCOSE requires that the independent reader sees tag 18 -> array of exactly 4 -> [bstr, map, bstr, non-empty bstr], nothing after it, and a payload whose content is exactly one CBOR map that decodes as claims (tagged map = NO-VERDICT); both entry points must agree; an accepted Evidence must hold (hook H2) exactly the token's parts; unmodified tokens must be accepted (positive control). distinct_nontrivial = distinct (class, variant) signatures")
+	c.Rule("envelopes assembled by the harness's own CBOR encoder around real signed tokens (7 algorithms, both profiles + extension): every tag 0..30 / 61 / 96 / 97 / 98 / none / nested / non-minimal; array lengths 0..6; each of the four elements replaced by every CBOR kind (uint, nint, bstr, empty bstr, tstr, array, map, tag, false, true, null, undefined, float); payload := a claims map of either profile in which one known claim (or a component / component field) carries a value of an undecodable type (27 kinds, incl. the EAT profile key 265 of a non-text type on tokens of either profile and component lists holding null / undefined entries); every tag number 0..300; tags 601 / 602 / 603 / 61 / 55799 / 1000 / 65535 / 65536 around the 4-array, around the tagged token and around the bare claims-set; the bare claims-set; payload content := int / tstr / array / null / undefined / true / float / bstr(map) / bstr(bstr(map)) / tagged map / map+trailing / empty / truncated map / indefinite map; null / undefined behind tags of every argument width (8-byte tag numbers with leading octets 00, 80, a0, a1, b8, bf); the non-map payloads again under protected headers carrying CWT claims (label 15) that name a registered profile, a content type, a key id; 1-8 trailing bytes, also after genuine tokens padded (unprotected header parameter) to exactly 4096 / 32768 / 65535 / 65536 / 65537 / 131072 / 262144 bytes (control: the padded token itself is accepted); COSE_Sign, COSE_Mac0, COSE_Mac, COSE_Encrypt0 layouts under their own tag and under tag 18; the four TF-M vectors (both *_mac0.bin must be rejected, both *_sign1.bin accepted); random AST mutations. tag numbers whose low-order bytes are 18 (0x112, 0x1212, 2^16+18, 2^32+18 ...) in every argument width. Every envelope is judged by DecodeEvidenceFromCOSE, by UnmarshalCOSE on a fresh Evidence, on an Evidence with claims already attached, and on an Evidence that decoded a good token before - all four must agree. Oracle: a nil error from DecodeEvidenceFromCOSE / Evidence.UnmarshalCOSE requires that the independent reader sees tag 18 -> array of exactly 4 -> [bstr, map, bstr, non-empty bstr], nothing after it, and a payload whose content is exactly one CBOR map that decodes as claims (tagged map = NO-VERDICT); both entry points must agree; an accepted Evidence must hold (hook H2) exactly the token's parts; unmodified tokens must be accepted (positive control). distinct_nontrivial = distinct (class, variant) signatures")
 	if err := extprof.Register(extprof.ExtP2Name); err != nil {
 		c.Violation("harness/register", err.Error(), nil)
 		return
@@ -478,6 +478,30 @@ func runC20(c *mon.Ctx) {
 		}
 		c20Judge(c, "trailing-second-token", append(append([]byte{}, st.tok...), st.tok...), false)
 		sig("trailing")
+		// the same for genuine tokens of EXACTLY 2^k (+-1) bytes, padded through an
+		// unprotected header parameter (seeded fault C20-v: input silently clipped at
+		// 64 KiB, which cuts a trailer off a token of exactly that size)
+		for _, total := range []int{4096, 32768, 65535, 65536, 65537, 131072, 262144} {
+			padTo := func(n int) []byte {
+				l := n - len(st.tok) - 8
+				for try := 0; try < 6 && l >= 0; try++ {
+					t := sign1Bytes(st.env.ProtectedBS, refcbor.MapOf(refcbor.I(-70001), refcbor.Bstr(make([]byte, l))), st.env.Payload, st.env.Signature)
+					if len(t) == n {
+						return t
+					}
+					l += n - len(t)
+				}
+				return nil
+			}
+			if t := padTo(total); t != nil {
+				c20Judge(c, "sized-token-control", t, true)
+				for _, l := range []int{1, 2, 8, 64} {
+					c20Judge(c, fmt.Sprintf("sized-token-%d+trailing-bytes", total), append(append([]byte{}, t...), g.Bytes(l)...), false)
+				}
+				c.Count("sized-tokens")
+			}
+		}
+		sig("trailing-sized")
 		// other COSE layouts
 		signer := refcbor.Arr(P(), U(), S())
 		layouts := []struct {
